@@ -306,6 +306,8 @@ mod verif_deflate_core {
         d.params.saved_lit = ROUTE_NONE;
         d.params.saved_match_len = 0;
         d.params.saved_match_dist = 0;
+        // the C API asks for a running Adler-32 on raw streams too (mz_deflateInit2 ORs this flag in)
+        if kani::any() { d.params.flags |= TDEFL_COMPUTE_ADLER32; }
         any_flush()
     }
 
